@@ -24,6 +24,10 @@ class CaseEnd(BaseException):
     eaten by the `except OSError/Exception` handlers of the code under test)."""
 
 
+class InjectedIO(OSError):
+    """A transient I/O error answered by the boundary."""
+
+
 class HarnessBug(BaseException):
     """The harness lost track of the directory (never a verdict)."""
 
@@ -281,7 +285,7 @@ ADAPTERS = {'vip': VipAdapter, 'rule': RuleAdapter, 'spec': SpecAdapter}
 
 FP_CALLS = {'create': ['symlink', 'readlink'], 'release': ['readlink', 'unlink'],
             'release_all': ['readlink', 'unlink'], 'gc': ['listdir', 'stat', 'unlink']}
-PROGRAMS = ['split-swap', 'split-swap', 'swap', 'kill', 'release', 'gc', 'create', 'born', 'steal']
+PROGRAMS = ['split-swap', 'split-swap', 'swap', 'kill', 'release', 'gc', 'create', 'born', 'steal', 'io-error']
 
 
 # ---------------------------------------------------------------------------
@@ -467,6 +471,15 @@ class Engine(osproxy.Sink):
                 return
 
     def _fire(self, top, call, phase, name, prog):
+        if prog == 'io-error':
+            # the kernel answers this request with a transient error that has nothing to do with the entry (EIO)
+            if phase != 'before' or call not in ('stat', 'lstat', 'readlink', 'listdir'):
+                return
+            top.fired += 1
+            top.io_error = True
+            top.nested.append(dict(at='%s %s(%s)' % (phase, call, name or ''), injected='EIO'))
+            self.ctx.count('io_errors_injected')
+            raise InjectedIO(5, 'Input/output error (injected)')
         top.anchor = top.last_call
         top.fired += 1
         top.nested.append(dict(at='%s %s(%s)' % (phase, call, name or '')))
@@ -578,7 +591,13 @@ class Engine(osproxy.Sink):
         self.ctx.count('ops_%s_%s' % (self.kind, k))
         if octx.fired:
             self.ctx.count('failpoints_fired')
-        if octx.interleaved:
+        if getattr(octx, 'io_error', False) and (exc is None or isinstance(exc, OSError)):
+            # the operation met an injected I/O error: failing with it is fine, so is going on - every link it removed
+            # or created on the way was judged when it happened; nothing may have changed unseen
+            self.ctx.count('ops_with_io_error_%s' % ('raised' if exc is not None else 'absorbed'))
+            if self.ref.tab != post:
+                self.compare(op, self.ref.tab, post, pre, octx.actor)
+        elif octx.interleaved:
             self.ctx.count('failpoint_ops_%s' % k)
             self.flags.add('interleaved')
             self.check_interleaved(op, octx, pre, pre_alive, ret, exc, post)
@@ -798,6 +817,10 @@ class Engine(osproxy.Sink):
     def gen_fp(self, k):
         rng = self.rng
         fps = []
+        if k == 'gc' and rng.random() < 0.3:
+            # the collector's look at one entry is answered with a transient error
+            return [dict(by='call', call=rng.choice(['stat', 'stat', 'lstat', 'readlink']), phase='before',
+                         nth=rng.choice([0, 0, 1, 2, 3]), prog='io-error')]
         for _ in range(1 if rng.random() < 0.75 else 2):
             prog = rng.choice(PROGRAMS)
             if rng.random() < 0.7:
